@@ -22,6 +22,7 @@ type textLine struct {
 // pageSpec is the content of one page; no lines = a blank page.
 type pageSpec struct {
 	lines []textLine
+	w, h  int // MediaBox size (0 = 612 x 792)
 }
 
 // docSpec describes a whole file.
@@ -105,9 +106,13 @@ func writePDF(d docSpec) []byte {
 	objs = append(objs, obj{2, fmt.Sprintf("<< /Type /Pages /Kids [%s] /Count %d >>", strings.Join(rootKids, " "), n)})
 	objs = append(objs, obj{3, "<< /Type /Font /Subtype /Type1 /BaseFont /Helvetica /Encoding /WinAnsiEncoding >>"})
 	for i, p := range d.pages {
+		pw, ph := p.w, p.h
+		if pw == 0 {
+			pw, ph = 612, 792
+		}
 		objs = append(objs, obj{pageObj(i), fmt.Sprintf(
-			"<< /Type /Page /Parent %d 0 R /MediaBox [0 0 612 792] /Resources << /Font << /F1 3 0 R >> >> /Contents %d 0 R >>",
-			parentOf[i], pageObj(i)+1)})
+			"<< /Type /Page /Parent %d 0 R /MediaBox [0 0 %d %d] /Resources << /Font << /F1 3 0 R >> >> /Contents %d 0 R >>",
+			parentOf[i], pw, ph, pageObj(i)+1)})
 		cs := contentStream(p)
 		objs = append(objs, obj{pageObj(i) + 1, fmt.Sprintf("<< /Length %d >>\nstream\n%s\nendstream", len(cs), cs)})
 	}
